@@ -10,6 +10,7 @@ import (
 	"github.com/gobwas/ws"
 	"github.com/gobwas/ws/wsutil"
 
+	"verifmc/drivers"
 	"verifmc/env"
 	"verifmc/explore"
 	"verifmc/refmodel"
@@ -696,6 +697,70 @@ func main() {
 						}
 						return nil
 					})
+				}
+			}
+			t.Outcome("ok")
+		})
+
+		// The masking the client-side fragmenting writer applies to its own buffer: whatever
+		// reaches the wire - also when a flush fails with a timeout and the application flushes
+		// again, once or twice - unmasks, with the key in its frame header, to bytes the caller wrote.
+		r.Part("E6-client-writer-masks-its-buffer-once", func(t *explore.T) {
+			for _, size := range []int{4, 16, 125} {
+				for _, n := range []int{1, 3, 4, 5, 16, 17, 40} {
+					for failAt := -1; failAt <= 3; failAt++ {
+						for _, timeout := range []bool{true, false} {
+							for _, partial := range []int{0, 3} {
+								size, n, failAt, timeout, partial := size, n, failAt, timeout, partial
+								t.Do(func() string {
+									return fmt.Sprintf("client Writer of %d bytes, %d bytes written, Flush x3; destination fails once at call %d (timeout=%v, %d bytes accepted)", size, n, failAt, timeout, partial)
+								}, func() *explore.Fail {
+									d := env.NewDst()
+									d.FailAt, d.Partial, d.Transient, d.Err = failAt, partial, true, env.TempErr{IsTimeout: timeout}
+									w := wsutil.NewWriterSize(d, ws.StateClientSide, ws.OpBinary, size)
+									data := fill(n, 3)
+									w.Write(data)
+									w.Flush()
+									w.Flush()
+									w.Flush()
+									// whole frames among the calls that were accepted in full
+									var wire []byte
+									for i, c := range d.Calls {
+										if i == failAt {
+											continue
+										}
+										wire = append(wire, c...)
+									}
+									frames, _ := drivers.ParseFrames(wire)
+									off := 0
+									for i, f := range frames {
+										if !f.H.Masked {
+											return explore.Failf("client-writer-frame-not-masked", "frame %d", i)
+										}
+										// each frame carries a piece of the data: the next piece, or (after the
+										// failed call) the piece that was lost again
+										ok := false
+										for _, o := range []int{off, off - len(f.Payload)} {
+											if o >= 0 && o+len(f.Payload) <= len(data) && bytes.Equal(f.Payload, data[o:o+len(f.Payload)]) {
+												ok, off = true, o+len(f.Payload)
+												break
+											}
+										}
+										if !ok && failAt >= 0 && i >= failAt {
+											// a piece lost in the failed call may be skipped: look for it anywhere
+											if j := bytes.Index(data, f.Payload); j >= 0 {
+												ok, off = true, j+len(f.Payload)
+											}
+										}
+										if !ok {
+											return explore.Failf("client-writer-wire-payload-is-not-the-callers-bytes", "frame %d of %d unmasks to %x, the caller wrote %x", i, len(frames), f.Payload, data)
+										}
+									}
+									return nil
+								})
+							}
+						}
+					}
 				}
 			}
 			t.Outcome("ok")
